@@ -145,6 +145,10 @@ def scenario_for(seed, index, tier):
         # framing mode: nothing of the first may leak into it
         sc['second'] = base_scenario(rng, proto=sc['proto'], small=True)
         sc['server']['conns'].append(sc['second']['server']['conns'][0])
+        # the second session starts after a user disconnect(), or from the
+        # exception handler after the server dropped the first link (no
+        # disconnect() in between)
+        sc['second_via'] = rng.choice(['user', 'handler'])
     v = rng.random()
     if v < 0.25:
         sc['net']['one_byte_reads'] = True
@@ -232,6 +236,12 @@ def _execute(scenario, tape, want_world=False):
 
         def on_exc(e, i):
             c = cur()
+            if scenario.get('second_via') == 'handler' and st['cur'] == 0 \
+                    and c.get('drop_requested') and isinstance(e, EOFError):
+                st['cur'] = 1
+                st['handler_reconnect'] = True
+                conn.connect()
+                return
             (c['late_errs'] if c.get('disc_started') else c['errs']).append(e)
         conn = Connection('sim.example', 25565, username='framer',
                           allowed_versions=[scenario['proto']],
@@ -271,11 +281,14 @@ def _execute(scenario, tape, want_world=False):
         conn.register_packet_listener(on_packet, Packet, early=True)
 
         def user():
+            via_handler = scenario.get('second_via') == 'handler'
             for k, c in enumerate(S):
-                st['cur'] = k
                 sc = c['sc']
-                c['connect'] = w.api('connect', conn.connect)
-                w.wait_until(lambda: c['in_play'] or c['errs'], 30000000)
+                if k == 0 or not via_handler:
+                    st['cur'] = k
+                    c['connect'] = w.api('connect', conn.connect)
+                w.wait_until(lambda: c['in_play'] or c['errs'] or
+                             S[0]['errs'], 30000000)
                 if not c['errs']:
                     for wr in sc['writes']:
                         if wr[0] == 'plugin':
@@ -298,6 +311,16 @@ def _execute(scenario, tape, want_world=False):
                             app is not None and
                             app.play_frames >= want_frames)
                     c['settled'] = w.wait_until(settled, 60000000)
+                if via_handler and k == 0 and len(S) > 1 and \
+                        not c['errs']:
+                    # the server drops the link; the handler reconnects
+                    c['drop_requested'] = True
+                    tcp = w.server.apps[0].conn
+                    w.sim.after(0, tcp.server_close, 'drop')
+                    w.wait_until(lambda: st['cur'] == 1 or c['errs'],
+                                 30000000)
+                    c['quiet'] = True
+                    continue
                 c['disc_started'] = True
                 c['disc'] = w.api('disconnect', conn.disconnect)
                 c['quiet'] = w.wait_until(
@@ -317,6 +340,8 @@ def _execute(scenario, tape, want_world=False):
             break
     if len(S) > 1 and not res.violations:
         res.probes['second-session-on-same-connection'] = 1
+        if st.get('handler_reconnect'):
+            res.probes['second-session-from-exception-handler'] = 1
     if want_world:
         return res, w
     return res
